@@ -1,8 +1,8 @@
 # -*- coding: utf-8 -*-
 """C05 - load then save preserves a package produced by any application.
 
-proof:          lean/OdfModel/Props/C05.lean (fix_identity, fix_finding_duplicate_xmlns, extras_carried,
-                sections_preserved_partial) about lean/OdfModel/LoadSax.lean (LoadParser, __fixXmlPart, the manifest
+proof:          lean/OdfModel/Props/C05.lean (fix_identity, fix_finding_gt_in_value, fix_finding_gt_part_dropped,
+                fix_w1_ok, fix_w2_text_untouched, section_attributes_kept, extras_carried, sections_preserved_partial) about lean/OdfModel/LoadSax.lean (LoadParser, __fixXmlPart, the manifest
                 dispatch of load)
 correspondence: __fixXmlPart on the text of every part of every package (real function vs `fixxml` of drv_load);
                 the SAX event stream of every part (xml.sax + recording handler, after the real __fixXmlPart) fed to
@@ -125,14 +125,10 @@ def classify_diff(d, ctx):
         return 'nested-section-element'
     if d['kind'] == 'attr':
         an = tuple(d['attr']); a = d['a']; b = d['b']
-        if an == (L.DRAWNS, 'name') and a is not None and b is not None and (u' ' in a or u':' in a):
-            return 'draw-name-with-blank-or-colon'
         if a is not None and b is not None and ctx['collisions'] and b.lstrip(u'M') == a.lstrip(u'M') and \
                 (a in ctx['collisions'] or a.lstrip(u'M') in ctx['collisions']) and \
                 (an == (L.TEXTNS, 'style-name') or an == (L.STYLENS, 'name')):
             return 'style-name-collision'
-        if a is not None and b is not None and an[1] == 'class-names' and len(a) > 1 and b == u' '.join(a):
-            return 'class-names-respaced'
     return 'section-changed:' + d['kind']
 
 
@@ -169,6 +165,12 @@ def compare_doc(rep, src, out, folder, top):
             fa = fix_analysis(b.decode('utf-8'))
             if fa and fa[0] == 'dup':
                 dropped[part] = 'fixxml-gt-in-root-attribute-value'
+    # the label applies only if the part really was dropped (nothing of it is in the saved package)
+    def empty(sec):
+        return sec is None or not [k for k in sec[4] if k[0] == 'E' and (k[1], k[2]) != (L.METANS, 'generator')]
+    gone = {u'content.xml': empty(O.body), u'styles.xml': empty(O.styles) and empty(O.master),
+            u'settings.xml': empty(O.settings), u'meta.xml': empty(O.meta)}
+    dropped = dict((p, s) for p, s in dropped.items() if gone[p])
     for part, e in O.errors.items():
         rep.add('saved-part-not-well-formed', '%s%s: %s' % (folder, part, e))
     def cx(part):
